@@ -34,10 +34,11 @@ VARIABLES pt,      \* current inputs = design point
           asm,     \* [Implicit comps -> tag] point at which the instance attributes a refactor guard can see were last written
           jac,     \* [Blocks -> [at: tag, mult: Nat]] content of the sub-Jacobian stores
           tot,     \* tag of the last compute_totals result
+          left,    \* TRUE once Problem.setup() has been called again on the same model objects (leftovers of the previous set-up may exist)
           hist     \* sequence of API calls so far (observation only)
 
-vars == <<pt, ranAt, out, cache, lu, asm, jac, tot, hist>>
-view == <<pt, ranAt, out, cache, lu, asm, jac, tot>>
+vars == <<pt, ranAt, out, cache, lu, asm, jac, tot, left, hist>>
+view == <<pt, ranAt, out, cache, lu, asm, jac, tot, left>>
 
 T(k, p)  == [kind |-> k, p |-> p]
 None     == T("none", "-")
@@ -56,6 +57,7 @@ Init == /\ pt \in Start
         /\ lu = [c \in Implicit |-> None]
         /\ asm = [c \in Implicit |-> None]
         /\ jac = [b \in Blocks |-> JacInit(b)]
+        /\ left = FALSE
         /\ hist = <<>>
 
 Log(e) == hist' = IF Len(hist) < MaxHist THEN Append(hist, e) ELSE hist
@@ -64,7 +66,7 @@ Log(e) == hist' = IF Len(hist) < MaxHist THEN Append(hist, e) ELSE hist
 SetPoint(p) == /\ p # pt
                /\ pt' = p
                /\ Log(<<"set", p>>)
-               /\ UNCHANGED <<ranAt, out, cache, lu, asm, jac, tot>>
+               /\ UNCHANGED <<ranAt, out, cache, lu, asm, jac, tot, left>>
 
 (* run_model: every compute()/solve_nonlinear() runs at the current inputs.  An implicit component *)
 (* whose solve_nonlinear refreshes its factorization only when a guard on instance attributes     *)
@@ -76,9 +78,12 @@ Strategies == {"solve_first", "residual_first"}
 AsmPre(c, st)    == IF st = "residual_first" /\ c \in GuardSeesApply THEN At(pt) ELSE asm[c]
 Refactors(c, st) == c \notin GuardedRefactor \/ lu[c] = None \/ AsmPre(c, st) # At(pt)
 RunLU(st) == [c \in Implicit |-> IF Refactors(c, st) THEN At(pt) ELSE lu[c]]
-RunOK(st) == \A c \in Implicit : RunLU(st)[c] = At(pt)
+\* ... and a system whose setup() ADDS to an instance container created once per instance (CompTable.SetupStateful) computes
+\* from the leftovers of the previous set-up once Problem.setup() has been called again
+SetupClean == ~left \/ SetupStateful = {}
+RunOK(st) == SetupClean /\ \A c \in Implicit : RunLU(st)[c] = At(pt)
 EmitBadRun(st) == PrintT(<<"EMIT", ToJson([h |-> Append(hist, <<"run", st>>), culprits |-> {},
-                                           stalelu |-> {c \in Implicit : RunLU(st)[c] # At(pt)}])>>)
+                                           stalelu |-> {c \in Implicit : RunLU(st)[c] # At(pt)} \cup (IF SetupClean THEN {} ELSE SetupStateful)])>>)
 RunModel(st) == /\ ranAt' = pt
                 /\ out' = IF RunOK(st) THEN At(pt) ELSE Wrong
                 /\ cache' = [c \in Caching |-> At(pt)]
@@ -86,7 +91,7 @@ RunModel(st) == /\ ranAt' = pt
                 /\ asm' = [c \in Implicit |-> At(pt)]
                 /\ IF RunOK(st) \/ ~EmitModelCex THEN TRUE ELSE EmitBadRun(st)
                 /\ Log(<<"run", st>>)
-                /\ UNCHANGED <<pt, jac, tot>>
+                /\ UNCHANGED <<pt, jac, tot, left>>
 
 Cap(j)      == [j EXCEPT !.mult = IF @ > 3 THEN 3 ELSE @]     \* saturate: finite graph
 SrcTag(b)   == IF ReadsCache(b) THEN cache[b[1]] ELSE At(pt)
@@ -114,7 +119,7 @@ Totals == /\ ranAt = pt                    \* derivatives at an un-run point are
           /\ tot' = IF TotOK THEN At(pt) ELSE Wrong
           /\ IF TotOK \/ ~EmitModelCex THEN TRUE ELSE EmitBad
           /\ Log(<<"totals">>)
-          /\ UNCHANGED <<pt, ranAt, out, cache>>
+          /\ UNCHANGED <<pt, ranAt, out, cache, left>>
 
 (* check_partials: per component, compute() at FD-perturbed inputs (caches follow), inputs and   *)
 (* outputs restored by the framework, compute_partials() once more.                              *)
@@ -125,9 +130,20 @@ CheckPartials == /\ ranAt = pt
                                              THEN [at |-> Fd, mult |-> 1]          \* OMCheckJacAlias
                                              ELSE Cap(LinBlock(b))]
                  /\ Log(<<"check">>)
-                 /\ UNCHANGED <<pt, ranAt, out, lu, tot>>
+                 /\ UNCHANGED <<pt, ranAt, out, lu, tot, left>>
 
-Next == (\E p \in Points : SetPoint(p)) \/ (\E st \in Strategies : RunModel(st)) \/ Totals \/ CheckPartials
+(* Problem.setup() called again on the same model (a sweep script that changes an option, a switch to complex   *)
+(* allocation, another solver): the framework allocates new vectors and Jacobian stores and calls setup() of     *)
+(* every system again - on the SAME instance for systems the user added to the model, on new instances for the  *)
+(* ones a group creates in its own setup().  Values set with set_val are lost: the harness re-applies the        *)
+(* current point, which is why pt is unchanged.  Instance attributes (caches, factors) may survive.              *)
+Resetup == /\ ranAt' = "none" /\ out' = None /\ tot' = None
+           /\ jac' = [b \in Blocks |-> JacInit(b)]
+           /\ left' = TRUE
+           /\ Log(<<"setup">>)
+           /\ UNCHANGED <<pt, cache, lu, asm>>
+
+Next == (\E p \in Points : SetPoint(p)) \/ (\E st \in Strategies : RunModel(st)) \/ Totals \/ CheckPartials \/ Resetup
 Spec == Init /\ [][Next]_vars
 
 (* ---------------------------------------------------------------------- *)
@@ -135,6 +151,7 @@ TypeOK == pt \in Points /\ ranAt \in Points \cup {"none"}
 
 OutputsAtPoint == ranAt = pt => out \in {At(pt), Wrong}                             \* C03, C12, C20 (Wrong: emitted counterexample)
 OutputsNeverWrong == out # Wrong                                                    \* holds iff no refactor guard can be defeated
+NoSetupLeftovers == SetupStateful = {}                                              \* table-level statement: every set-up starts from a clean instance
 NoDefeatableGuard == GuardedRefactor \cap (GuardSeesApply \cup GuardSeesLinearize) = {}   \* table-level statement
 TotalsFresh    == tot \in {None} \cup {At(p) : p \in Points}                        \* C03: never a Wrong total
 NoStaleRead    == [][Totals => \A b \in Blocks : ReadsCache(b) => cache[b[1]] = At(pt)]_vars
